@@ -77,6 +77,7 @@ def cases(ctx):
                 yield 'deep', {'depth': d, 'broken': broken}
             b += 1
     # ---- every prefix (truncation point) of short valid texts, graph and triple notation
+    ctx.new_phase()
     for i in range(150 if q else 2500):
         if not ctx.time_left():
             break
@@ -90,6 +91,7 @@ def cases(ctx):
         yield 'long', {'i': i}
     # ---- random
     n = 1500 if q else 20000
+    ctx.new_phase()
     for i in range(n):
         if not ctx.time_left():
             break
